@@ -75,7 +75,11 @@ func (r *RedisError) IsNil() bool {
 // IsMoved checks if it is a redis MOVED message and returns the moved address.
 func (r *RedisError) IsMoved() (addr string, ok bool) {
 	if ok = strings.HasPrefix(r.string(), "MOVED"); ok {
-		addr = fixIPv6HostPort(strings.Split(r.string(), " ")[2])
+		if parts := strings.Split(r.string(), " "); len(parts) > 2 {
+			addr = fixIPv6HostPort(parts[2])
+		} else {
+			ok = false
+		}
 	}
 	return
 }
@@ -83,7 +87,11 @@ func (r *RedisError) IsMoved() (addr string, ok bool) {
 // IsAsk checks if it is a redis ASK message and returns ask address.
 func (r *RedisError) IsAsk() (addr string, ok bool) {
 	if ok = strings.HasPrefix(r.string(), "ASK"); ok {
-		addr = fixIPv6HostPort(strings.Split(r.string(), " ")[2])
+		if parts := strings.Split(r.string(), " "); len(parts) > 2 {
+			addr = fixIPv6HostPort(parts[2])
+		} else {
+			ok = false
+		}
 	}
 	return
 }
@@ -91,7 +99,11 @@ func (r *RedisError) IsAsk() (addr string, ok bool) {
 // IsRedirect checks if it is a redis REDIRECT message and returns redirect address.
 func (r *RedisError) IsRedirect() (addr string, ok bool) {
 	if ok = strings.HasPrefix(r.string(), "REDIRECT"); ok {
-		addr = fixIPv6HostPort(strings.Split(r.string(), " ")[1])
+		if parts := strings.Split(r.string(), " "); len(parts) > 1 {
+			addr = fixIPv6HostPort(parts[1])
+		} else {
+			ok = false
+		}
 	}
 	return
 }
@@ -1371,11 +1383,15 @@ func (m *RedisMessage) AsFtSearch() (total int64, docs []FtSearchDoc, err error)
 		for i := 1; i < len(m.values()); i++ {
 			doc := FtSearchDoc{Key: m.values()[i].string()}
 			if wscore {
-				i++
+				if i++; i >= len(m.values()) {
+					return 0, nil, fmt.Errorf("%w: truncated FT.SEARCH response", errParse)
+				}
 				doc.Score, _ = strconv.ParseFloat(m.values()[i].string(), 64)
 			}
 			if wattrs {
-				i++
+				if i++; i >= len(m.values()) {
+					return 0, nil, fmt.Errorf("%w: truncated FT.SEARCH response", errParse)
+				}
 				doc.Doc, _ = m.values()[i].AsStrMap()
 			}
 			docs = append(docs, doc)
@@ -1454,6 +1470,9 @@ func (m *RedisMessage) AsGeosearch() ([]GeoLocation, error) {
 			loc.Name = v.string()
 		} else {
 			info := v.values()
+			if len(info) == 0 {
+				return nil, fmt.Errorf("%w: empty GEOSEARCH location", errParse)
+			}
 			var i int
 
 			//name
